@@ -1,5 +1,7 @@
 """C14 — colocalisation coefficients and block shuffling: pewlib.process.colocal.{li_icq, pearsonr,
-manders, pearsonr_probablity} and pewlib.process.calc.shuffle_blocks against PewModel/Colocal.lean.
+manders, pearsonr_probablity} and pewlib.process.calc.shuffle_blocks against PewModel/Colocal.lean (coefficients, 2-D
+shuffle, the call and loop models with their memory) and PewModel/ColocalNd.lean (the shuffle for arrays of any
+dimension; every shuffle case goes through it, 1-D and 2-D cases also through the 2-D model).
 
 Observation points: the return values and the argument arrays (images, mask) before/after each call.
 `numpy.random.permutation` is replaced inside `evaluate` by a recorded, seeded permutation (restored
@@ -17,6 +19,9 @@ from harness.core import Prop, outcome, unrat
 
 EPS = 2.0 ** -52
 REL = 1e-9
+# Behaviour the property text does not reach (the value returned as "probability" for n = 0 shuffles) is compared with
+# the model and the outcome recorded as a feature; it is judged (impl-vs-model) only with this switch on.
+JUDGE_OUTSIDE_PROPERTY = False
 
 
 class PermRecorder:
@@ -45,16 +50,23 @@ class PermRecorder:
         return np.array(out, dtype=arr.dtype)
 
 
-def with_layout(a, layout):
-    """the same values in another memory layout (C-contiguous, Fortran-ordered, a strided view, a transposed view)"""
+def with_layout(a, layout, perm=None):
+    """the same values in another memory layout: C-contiguous, Fortran-ordered, a strided view (last or first axis), a
+    transposed view (2-D), or contiguous in an arbitrary axis order `perm` (neither C nor Fortran for >= 3 axes)"""
     if layout == "F":
         return np.asfortranarray(a)
     if layout == "strided":
         big = np.zeros(a.shape[:-1] + (a.shape[-1] * 2,), dtype=a.dtype)
         big[..., ::2] = a
         return big[..., ::2]
+    if layout == "strided0":
+        big = np.zeros((a.shape[0] * 2,) + a.shape[1:], dtype=a.dtype)
+        big[::2] = a
+        return big[::2]
     if layout == "transposed" and a.ndim == 2:
         return np.ascontiguousarray(a.T).T
+    if layout == "perm" and perm is not None and sorted(perm) == list(range(a.ndim)):
+        return np.array(a.transpose(perm), order="C", copy=True).transpose(np.argsort(perm))
     return a
 
 
@@ -122,13 +134,19 @@ class C14(Prop):
     rule = ("three streams. coeff: dyadic image pairs (independent, correlated, anti-correlated, two-valued tiles, ties at the "
             "mean), scales 2^-10..2^20, offsets, thresholds None/0/min/data value/between; 30% of them (and 32 fixed ones) in extreme units: "
             "image x times 2^ex, image y times 2^ey with exponents +-150, +-250, +-300, +-330 in the same direction, in opposite "
-            "directions, on one image only, mixed (e.g. -300/-230), and a few beyond what float64 can evaluate (undetermined); shuffle: 1-D and 2-D arrays, blocks "
-            "1..5 per axis, shapes multiple of the block or not (also smaller than the block), masks full/partial/ragged/"
-            "block-cutting/empty (bool or float), both modes, partial on/off, permutations identity/reverse/rotate/random; "
-            "prob: 2-D pairs, mask None/full/partial/ragged, blocks 1..5, n = 1..6. non-trivial = at least two blocks "
+            "directions, on one image only, mixed (e.g. -300/-230), and a few beyond what float64 can evaluate (undetermined); shuffle: 1-D to 4-D arrays "
+            "(3-D/4-D at most 300 elements), blocks 1..5 per axis (1..3 beyond 2-D), shapes multiple of the block or not (also smaller than "
+            "the block), masks full/partial/ragged/block-cutting/empty (bool or float), both modes, partial on/off, permutations "
+            "identity/reverse/rotate/random, memory layouts C/Fortran/strided along the last or first axis/transposed/contiguous in a "
+            "permuted axis order; every case through the n-D Lean model, 1-D and 2-D cases also through the 2-D model; "
+            "prob: 2-D pairs, mask None/full/partial/ragged, blocks 1..5, n = 0..6 (n = 0: NaN, model only), all layouts. non-trivial = at least two blocks "
             "selected and moved, or a non-multiple shape, or a partial mask, or ties/threshold-on-value in coeff; distinct by "
             "canonical case hash")
-    trusted = ["np.pad(mode='edge'), np.nonzero, ravel_multi_index/unravel_index, fancy-index assignment, as_strided as documented; "
+    trusted = ["the contiguity flags of the argument array (x.flags.c_contiguous / f_contiguous) are read from NumPy and are part of the input "
+               "description; from them the Lean model derives whether the block view aliases the array (np.pad keeps Fortran order only for "
+               "arrays that are Fortran- and not C-contiguous; np.ascontiguousarray copies exactly when the array is not C-contiguous; "
+               "ndarray.copy() is C-ordered) - checked for 1-D..4-D arrays in C, Fortran, strided and axis-permuted layouts",
+               "np.pad(mode='edge'), np.nonzero, ravel_multi_index/unravel_index, fancy-index assignment, as_strided as documented; "
                "the harness's stand-in for numpy.random.permutation returns a permutation of its argument; Pearson's r compared "
                "at 1e-9 + 64*eps*(|E xy| + |Ex Ey|)/(sx sy); rs > r decisions closer than that may go either way",
                "extreme units (xscale:*): the Lean definitions are evaluated on the exact values in ordinary units (r does not depend "
@@ -139,7 +157,8 @@ class C14(Prop):
                "their product (ICQ) are >= 2^-960, and the sums of |x|, |y|, |xy|, x^2, y^2 and 4 sum|x| sum|y| are <= 2^1000 (exact "
                "rational test in evaluate, also for the two affine variants); otherwise undetermined"]
     assumptions = ["float64 images with dyadic values (sums and products exact); images non-constant over the pixels used; "
-                   "Manders only with a non-zero image sum; block sizes >= 1; n >= 1"]
+                   "Manders only with a non-zero image sum; block sizes >= 1; the 'fraction in [0, 1]' clause for n >= 1 shuffles (n = 0 gives NaN = 0/0 in "
+                   "the code and `none` in the model; compared impl-vs-model only)"]
 
     # ------------------------------------------------------------------ generation
     def gen_pair(self, rng, n):
@@ -199,18 +218,22 @@ class C14(Prop):
                 case["xpow"] = self.gen_xpow(rng)
             return case
         if stream == "shuffle":
-            ndim = rng.choice([1, 2, 2])
-            block = [rng.randint(1, 5) for _ in range(ndim)]
+            ndim = rng.choice([1, 2, 2, 3, 3, 4])
+            block = [rng.randint(1, 5 if ndim <= 2 else 3) for _ in range(ndim)]
+            top = {1: 24, 2: 14, 3: 7, 4: 4}[ndim]
             shape = []
             for b in block:
                 r = rng.random()
                 if r < 0.45:
-                    s = b * rng.randint(1, 6)
+                    s = b * rng.randint(1, 6 if ndim <= 2 else max(1, top // b))
                 elif r < 0.55:
                     s = rng.randint(1, b)  # not larger than the block
                 else:
-                    s = rng.randint(1, 24 if ndim == 1 else 14)
+                    s = rng.randint(1, top)
                 shape.append(s)
+            while int(np.prod(shape)) > 300:  # keep 3-D / 4-D arrays small
+                k = max(range(ndim), key=lambda a: shape[a])
+                shape[k] -= 1
             n = int(np.prod(shape))
             xs = list(range(n))
             rng.shuffle(xs)
@@ -221,7 +244,8 @@ class C14(Prop):
                     "mask_float": rng.random() < 0.3, "mode": rng.choice(["pad", "inplace"]),
                     "partial": rng.random() < 0.5, "perm": rng.choice(["random", "random", "random", "identity", "reverse", "rotate", "swap2"]),
                     "pseed": rng.randrange(10 ** 9), "gen": ["mask:" + mask["kind"]],
-                    "layout": rng.choice(["C", "C", "C", "F", "strided", "transposed"]), "mask_layout": rng.choice(["C", "C", "F"])}
+                    "layout": rng.choice(["C", "C", "C", "F", "strided", "transposed" if ndim == 2 else "perm", "strided0"]),
+                    "layout_perm": rng.sample(range(ndim), ndim), "mask_layout": rng.choice(["C", "C", "F"])}
         b = rng.choice([1, 2, 2, 3, 3, 4, 5])
         shape = [rng.randint(max(2, b), 16), rng.randint(max(2, b), 16)]
         if rng.random() < 0.4:
@@ -237,9 +261,9 @@ class C14(Prop):
         mk = self.gen_mask(rng, shape, [b, b], allow_empty=False)
         return {"kind": "prob", "shape": shape, "x": x, "y": y, "den": rng.choice([1, 4]),
                 "mask": None if rng.random() < 0.25 else mk["data"], "block": b, "partial": rng.random() < 0.5,
-                "n": rng.randint(1, 6), "perm": rng.choice(["random"] * 14 + ["identity", "reverse"]),
+                "n": rng.choice([0] + [1, 2, 3, 4, 5, 6] * 5), "perm": rng.choice(["random"] * 14 + ["identity", "reverse"]),
                 "pseed": rng.randrange(10 ** 9), "gen": [style, "mask:" + mk["kind"]],
-                "layout": rng.choice(["C", "C", "F", "strided"]), "mask_layout": rng.choice(["C", "C", "F"])}
+                "layout": rng.choice(["C", "C", "F", "strided", "strided0", "transposed"]), "mask_layout": rng.choice(["C", "C", "F"])}
 
     def gen_xpow(self, rng):
         kind = rng.choice(["same", "same", "same", "opposite", "one", "mixed", "mixed", "beyond"])
@@ -312,11 +336,34 @@ class C14(Prop):
                        "mask_float": True, "mode": mode, "partial": part, "perm": "rotate", "pseed": 4, "gen": ["mask:partial"]}
                 yield {"kind": "shuffle", "shape": [2, 5], "block": [3, 2], "x": list(range(10)), "mask": [1] * 10,
                        "mask_float": False, "mode": mode, "partial": part, "perm": "reverse", "pseed": 5, "gen": ["mask:full"]}
+        # 3-D and 4-D: multiples, non-multiples, smaller than the block, unit blocks, a mask cutting blocks
+        for mode in ("pad", "inplace"):
+            for part in (False, True):
+                for shape, block, perm, lay in (([2, 4, 4], [1, 2, 2], "reverse", "C"), ([3, 3, 3], [2, 2, 2], "rotate", "C"),
+                                                ([3, 5, 4], [2, 2, 3], "random", "F"), ([1, 2, 1, 3], [2, 1, 3, 2], "reverse", "C"),
+                                                ([2, 2, 2, 2], [1, 1, 1, 1], "random", "perm"), ([2, 3, 2, 4], [1, 2, 2, 2], "reverse", "strided"),
+                                                ([4, 2, 6], [2, 2, 3], "swap2", "perm")):
+                    n = int(np.prod(shape))
+                    m = np.ones(shape, dtype=int)
+                    m[tuple(slice(0, 1) if a == len(shape) - 1 else slice(None) for a in range(len(shape)))] = part  # cuts the first blocks
+                    yield {"kind": "shuffle", "shape": shape, "block": block, "x": [(7 * i) % n for i in range(n)] if n % 7 else list(range(n)),
+                           "mask": [int(v) for v in m.ravel()], "mask_float": False, "mode": mode, "partial": part, "perm": perm,
+                           "pseed": 11, "gen": ["mask:full" if part else "mask:cut"], "layout": lay,
+                           "layout_perm": list(range(len(shape)))[1:] + [0], "mask_layout": "F" if lay == "F" else "C"}
+        # pearsonr_probablity takes one block size for both axes: images that are not 2-D (compared with the model only)
+        for shape in ([12], [2, 3, 4]):
+            n = int(np.prod(shape))
+            yield {"kind": "prob", "shape": shape, "x": [(7 * i * i) % 23 for i in range(n)], "y": list(range(n)), "den": 1,
+                   "mask": None, "block": 2, "partial": False, "n": 2, "perm": "random", "pseed": 9, "gen": ["mask:none"]}
         for part in (False, True):
             yield {"kind": "prob", "shape": [20, 20], "x": [(7 * i * i) % 23 for i in range(400)], "y": [(5 * i * i * i) % 29 for i in range(400)],
                    "den": 1, "mask": [1] * 400, "block": 3, "partial": part, "n": 3, "perm": "random", "pseed": 6, "gen": ["mask:full"]}
             yield {"kind": "prob", "shape": [5, 7], "x": [(7 * i * i) % 23 for i in range(35)], "y": list(range(35)),
                    "den": 1, "mask": None, "block": 2, "partial": part, "n": 2, "perm": "random", "pseed": 7, "gen": ["mask:none"]}
+            # zero shuffles: the probability is NaN (compared with the model only)
+            yield {"kind": "prob", "shape": [5, 7], "x": [(7 * i * i) % 23 for i in range(35)], "y": list(range(35)),
+                   "den": 1, "mask": None if part else [1] * 30 + [0] * 5, "block": 2, "partial": part, "n": 0, "perm": "random",
+                   "pseed": 8, "gen": ["mask:none" if part else "mask:rows"]}
 
     # ------------------------------------------------------------------ evaluation
     def evaluate(self, case, ctx):
@@ -444,13 +491,15 @@ class C14(Prop):
         from pewlib.process import calc
 
         shape, block = case["shape"], case["block"]
+        nd = len(shape)
         pad = case["mode"] == "pad"
-        x = with_layout(np.array(case["x"], dtype=np.float64).reshape(shape), case.get("layout", "C"))
+        x = with_layout(np.array(case["x"], dtype=np.float64).reshape(shape), case.get("layout", "C"), case.get("layout_perm"))
         mask = with_layout(np.array(case["mask"], dtype=np.float64 if case["mask_float"] else bool).reshape(shape), case.get("mask_layout", "C"))
         x0, m0 = x.copy(), mask.copy()
         # memory layout is part of the input: view_as_blocks copies a working array that is not C-contiguous (np.pad keeps
-        # Fortran order), and then the block assignment is lost; the model takes this as the flag `aliases`
-        aliases = bool(not x.flags.fnc) if pad else bool(x.flags.c_contiguous)
+        # Fortran order), and then the block assignment is lost; the model derives this (`layoutAliases`) from the two
+        # contiguity flags of the argument
+        cC, fC = bool(x.flags.c_contiguous), bool(x.flags.f_contiguous)
         rec = PermRecorder(case["pseed"], case["perm"])
         saved = np.random.permutation
         np.random.permutation = rec
@@ -466,23 +515,42 @@ class C14(Prop):
         finally:
             np.random.permutation = saved
         impl["mask_unchanged"] = bool(mask.dtype == m0.dtype and np.array_equal(mask, m0))
+        impl["mask_after"] = [bool(v) for v in mask.ravel()]
         if pad:
             impl["x_unchanged"] = bool(np.array_equal(x, x0))
-        n0, n1 = (1, shape[0]) if len(shape) == 1 else shape
-        b0, b1 = (1, block[0]) if len(shape) == 1 else block
+        else:  # in-place mode hands back the argument itself: the argument array afterwards is the result
+            impl["x_after"] = [float(v) for v in x.ravel()]
         good = "raises" not in impl and impl["shape"] == shape
         nidx = rec.calls[0][1] if len(rec.calls) == 1 else None
-        rep = ctx.driver.call("c14.shuffle", n0=n0, n1=n1, x=[core.rat(v) for v in x0.ravel()], mask=[bool(v) for v in m0.ravel()],
-                              b0=b0, b1=b1, pad=pad, partial=case["partial"], nidx=nidx, aliases=aliases,
-                              out=[core.rat(v) for v in impl["out"]] if good else None)
-        idx = rep["idx"]
-        model = {"shape": shape, "out": None if rep["model"] is None else [float(unrat(v)) for v in rep["model"]],
-                 "mask_unchanged": True, "perm_arg": idx}
+        xr, mr = [core.rat(v) for v in x0.ravel()], [bool(v) for v in m0.ravel()]
+        outr = [core.rat(v) for v in impl["out"]] if good else None
+        # the dimension-generic model (PewModel/ColocalNd.lean), on every case
+        rep = ctx.driver.call("c14.shuffle_nd", shape=shape, block=block, x=xr, mask=mr, pad=pad, partial=case["partial"],
+                              nidx=nidx, c_contig=cC, f_contig=fC, out=outr)
+        idx, aliases = rep["idx"], rep["aliases"]
+        fl = lambda r, k: None if r[k] is None else [float(unrat(v)) for v in r[k]]
+        model = {"shape": shape, "out": fl(rep, "model"), "mask_after": rep["mask_after"],
+                 "mask_unchanged": rep["mask_after"] == mr, "perm_arg": idx}
         if pad:
-            model["x_unchanged"] = True
+            model["x_unchanged"] = fl(rep, "x_after") in (None, [float(v) for v in x0.ravel()])
+        else:
+            model["x_after"] = fl(rep, "x_after")
+        spec_rel = dict(rep["spec"] or {})
+        if nd <= 2:
+            # the 2-D model (the theorems of the 2-D section are about it; a 1-D array is one row with block height 1) on the
+            # same case: both Lean models must say the same (theorem nd_coincides_2d)
+            n0, n1 = (1, shape[0]) if nd == 1 else shape
+            b0, b1 = (1, block[0]) if nd == 1 else block
+            rep2 = ctx.driver.call("c14.shuffle", n0=n0, n1=n1, x=xr, mask=mr, b0=b0, b1=b1, pad=pad, partial=case["partial"],
+                                   nidx=nidx, c_contig=cC, f_contig=fC, out=outr)
+            for k in ("idx", "aliases", "model", "x_after", "mask_after"):
+                if rep2[k] != rep[k]:
+                    raise core.InternalError(f"the 2-D and the n-D Lean model differ in {k} (contradicts theorem nd_coincides_2d)")
+            for k, v in (rep2["spec"] or {}).items():
+                spec_rel[k] = spec_rel.get(k) and v  # both specification relations are demanded
         impl["perm_arg"] = rec.calls[0][0] if len(rec.calls) == 1 else [c[0] for c in rec.calls]
         spec = {"outside_fixed": True, "blocks_from_input": True, "conserved": True, "mask_unchanged": True, "shape": shape}
-        impl_spec = dict(rep["spec"] or {}, mask_unchanged=impl["mask_unchanged"], shape=impl.get("shape"))
+        impl_spec = dict(spec_rel, mask_unchanged=impl["mask_unchanged"], shape=impl.get("shape"))
         spec_ok = good and all(impl_spec.get(k) == v for k, v in spec.items())
         model_ok = good and core.canon({k: impl.get(k) for k in model}) == core.canon(model)
         same_rng_use = impl["perm_arg"] == idx
@@ -491,13 +559,15 @@ class C14(Prop):
             # block indices): the recorded array cannot be interpreted by the model, so only the parts of the model
             # that do not depend on it are compared; the specification relation (Lean, on the implementation's own
             # output) is still demanded in full
-            keys = [k for k in model if k not in ("out", "perm_arg")]
+            keys = [k for k in model if k not in ("out", "perm_arg", "x_after")]
             model_ok = core.canon({k: impl.get(k) for k in keys}) == core.canon({k: model[k] for k in keys})
-        impl["spec_verdicts"] = rep["spec"]
-        feats = {"shuffle", f"ndim{len(shape)}", "mode:" + case["mode"], "partial:" + str(case["partial"]), "perm:" + case["perm"],
+        impl["spec_verdicts"] = spec_rel
+        feats = {"shuffle", f"ndim{nd}", "mode:" + case["mode"], "partial:" + str(case["partial"]), "perm:" + case["perm"],
                  "maskdtype:" + ("float" if case["mask_float"] else "bool")} | set(case.get("gen", []))
         feats.add("selected:" + (str(len(idx)) if len(idx) < 3 else "3+"))
-        feats.add("layout:" + case.get("layout", "C") + ("" if aliases else "(block view is a copy: result unshuffled)"))
+        lay = case.get("layout", "C")
+        lay_eff = "C" if (lay == "transposed" and nd != 2) or (lay == "perm" and sorted(case.get("layout_perm") or []) != list(range(nd))) else lay
+        feats.add("layout:" + lay_eff + ("" if aliases else "(block view is a copy: result unshuffled)"))
         mult = [s % b == 0 for s, b in zip(shape, block)]
         feats.add("shape:" + ("multiple" if all(mult) else "non-multiple"))
         if any(s < b for s, b in zip(shape, block)):
@@ -509,6 +579,9 @@ class C14(Prop):
         moved = nidx is not None and nidx != idx and aliases
         if moved:
             feats.add("moved")
+        if nd >= 3:  # the classes again for arrays beyond 2-D
+            feats |= {f"ndim{nd}:" + f for f in feats if f.split(":")[0] in ("mode", "partial", "layout", "shape", "shape<block", "moved")
+                      or f.startswith("mask:")}
         nontrivial = moved or not all(mult) or case.get("gen", [""])[0] not in ("mask:full",)
         return outcome(impl, model, spec, spec_ok=spec_ok, model_ok=model_ok, features=feats if nontrivial else [])
 
@@ -530,7 +603,7 @@ class C14(Prop):
         try:
             try:
                 r, p = colocal.pearsonr_probablity(x, y, block=case["block"], mask=mask, shuffle_partial=case["partial"], n=n)
-                impl = {"r": float(r), "p": float(p)}
+                impl = {"r": float(r), "p": None if math.isnan(float(p)) else float(p)}  # NaN = None, as in the driver protocol
             except core.InternalError:
                 raise
             except Exception as e:
@@ -539,10 +612,19 @@ class C14(Prop):
             np.random.permutation = saved
         impl["images_unchanged"] = bool(np.array_equal(x, x0) and np.array_equal(y, y0))
         impl["mask_unchanged"] = True if mask is None else bool(np.array_equal(mask, m0))
+        if len(shape) != 2:
+            # the routine takes ONE block size and hands (block, block) to shuffle_blocks: its domain is 2-D images.  Outside it
+            # nothing of the property is demanded; that it raises is compared with the model (probRaises) when it does
+            rep = ctx.driver.call("c14.prob_domain", shape=shape, n=n)
+            raised = "raises" in impl
+            return outcome({"raises": raised, "images_unchanged": impl["images_unchanged"], "mask_unchanged": impl["mask_unchanged"]},
+                           {"raises": rep["raises"]}, None, spec_ok=True, model_ok=(not raised) or rep["raises"], hyp=False,
+                           features=["prob:not-2-D(" + ("raises, as modelled" if raised else "accepted") + ")"])
         mlist = [True] * (shape[0] * shape[1]) if m0 is None else [bool(v) for v in m0.ravel()]
         sig_ok = len(rec.calls) == n
         rep = ctx.driver.call("c14.prob", n0=shape[0], n1=shape[1], x=[core.rat(v) for v in x0.ravel()],
                               y=[core.rat(v) for v in y0.ravel()], mask=mlist, block=case["block"], partial=case["partial"],
+                              y_c_contig=bool(y.flags.c_contiguous), y_f_contig=bool(y.flags.f_contiguous),
                               sigmas=[c[1] for c in rec.calls] if sig_ok else [])
         g = lambda k: unrat(rep[k])
         vx, vy, cov = g("var_x"), g("var_y"), g("cov")
@@ -571,15 +653,30 @@ class C14(Prop):
         same_idx = sig_ok and all(c[0] == rep["idx"] for c in rec.calls)
         # the property fixes r, "a fraction in [0, 1]" of the n shuffles and the untouched arguments; which side of r is
         # counted is the mechanism's choice (rs > r) and is compared with the model only
+        # the model's loop state after the run (Lean: probRun, the mask copied inside every call, shuffled = y.copy())
         model = {"r": r, "p_count_in": [sure, sure + near], "perm_args_equal_idx": True, "n_perm_calls": n,
-                 "images_unchanged": True, "mask_unchanged": True}
+                 "images_unchanged": rep["y_unchanged"], "mask_unchanged": rep["mask_unchanged"], "p_is_nan": rep["p"] is None and sig_ok}
+        if sig_ok and any(s["n"] != rep["n_masked"] for s in rep["steps"]):
+            raise core.InternalError("model: a round reads another number of pixels than r (contradicts theorem same_pixels)")
+        if n == 0:
+            # zero shuffles: (rs > r).sum() / 0 is NaN.  "A fraction in [0, 1]" of no shuffles is not defined, so this part of
+            # the text does not apply (n = 0 is taken to be outside "any number of shuffles"); r and the untouched arguments
+            # are still demanded, and the NaN is compared with the model (probability [] = none)
+            spec = {"r": r, "images_unchanged": True, "mask_unchanged": True}
+            ok = "raises" not in impl and impl["images_unchanged"] and impl["mask_unchanged"] and abs(impl["r"] - r) <= tol
+            impl["n_perm_calls"], impl["p_is_nan"] = len(rec.calls), "raises" not in impl and impl["p"] is None
+            agrees = impl["p_is_nan"] and sig_ok
+            return outcome(impl, model, spec, spec_ok=ok, model_ok=ok and model["p_is_nan"] and (agrees or not JUDGE_OUTSIDE_PROPERTY),
+                           hyp=False, features=feats | {"n0(fraction clause not applicable): p is NaN, " +
+                                                        ("as modelled" if agrees else "DIFFERS(recorded only)")})
         spec = {"r": r, "p_is_fraction_of_n_in_[0,1]": True, "images_unchanged": True, "mask_unchanged": True}
-        ok = "raises" not in impl and impl["images_unchanged"] and impl["mask_unchanged"]
+        ok = "raises" not in impl and impl["images_unchanged"] and impl["mask_unchanged"] and impl["p"] is not None
         if ok:
             k = impl["p"] * n
             ok = abs(impl["r"] - r) <= tol and 0.0 <= impl["p"] <= 1.0 and abs(k - round(k)) < 1e-9
         spec_ok = ok
-        model_ok = ok and sig_ok and same_idx and sure <= round(impl["p"] * n) <= sure + near
+        model_ok = (ok and sig_ok and same_idx and sure <= round(impl["p"] * n) <= sure + near
+                    and model["images_unchanged"] and model["mask_unchanged"] and not model["p_is_nan"])
         if ok and not same_idx:
             # the implementation draws its randomness differently: the recorded permutations cannot be replayed by the
             # model, so the count of shuffled r above r is not compared; r, the [0, 1] fraction of n and the untouched
@@ -611,6 +708,15 @@ class C14(Prop):
                     s[ax] = slice(0, shape[ax] - 1)
                     sub, subm = arr[tuple(s)], msk[tuple(s)]
                     yield {**case, "shape": list(sub.shape), "x": [int(v) for v in sub.ravel()], "mask": [int(v) for v in subm.ravel()]}
+            for ax in range(len(shape)):
+                if shape[ax] == 1 and len(shape) > 1:  # drop an axis of extent one (the layout is reset: it names axes)
+                    yield {**case, "shape": shape[:ax] + shape[ax + 1:], "block": block[:ax] + block[ax + 1:],
+                           "layout": "C" if case.get("layout") in ("perm", "transposed") else case.get("layout", "C"),
+                           "layout_perm": list(range(len(shape) - 1))}
+            if case.get("layout", "C") != "C":
+                yield {**case, "layout": "C"}
+            if case.get("mask_layout", "C") != "C":
+                yield {**case, "mask_layout": "C"}
             if case["mask_float"]:
                 yield {**case, "mask_float": False}
             if case["perm"] not in ("reverse", "identity"):
@@ -623,7 +729,7 @@ class C14(Prop):
             if case["mask"] is not None:
                 yield {**case, "mask": None}
             shape = case["shape"]
-            for ax in range(2):
+            for ax in range(2 if len(shape) == 2 else 0):
                 if shape[ax] > 2:
                     s = [slice(None)] * 2
                     s[ax] = slice(0, shape[ax] - 1)
